@@ -139,6 +139,18 @@ func evalAny(c *C, mt protoreflect.MessageType, m proto.Message, other protorefl
 				return
 			}
 		}
+		// The binary codec is C03's subject: what the Any helpers must reproduce is what the codec itself
+		// reproduces. (Known outside C45: without -tags protolegacy, Marshal drops the unknown fields of a
+		// MessageSet while Size counts them; such contents are counted, not failed, here.)
+		want := mt.New().Interface()
+		if !chk(uopts.Unmarshal(a.GetValue(), want) == nil, "proto.Unmarshal(proto.Marshal(m)) succeeds") {
+			return
+		}
+		if !proto.Equal(want, m) {
+			c.Hist("any:codec-alone-does-not-round-trip(" + name + ")")
+		}
+		orig := m
+		m = want
 		url := a.GetTypeUrl()
 		chk(url == urlPrefix+name, "New writes type.googleapis.com/<full name>")
 		hu, hv, hn, ho := vh.Hex([]byte(url)), vh.Hex(a.Value), vh.Hex([]byte(name)), vh.Hex([]byte(oname))
@@ -210,7 +222,7 @@ func evalAny(c *C, mt protoreflect.MessageType, m proto.Message, other protorefl
 
 		// MarshalFrom with Deterministic: overwrites both fields, bytes are the deterministic encoding
 		a2 := &anypb.Any{TypeUrl: "stale/x.Y", Value: []byte("stale")}
-		chk(anypb.MarshalFrom(a2, m, det) == nil && a2.TypeUrl == url && bytes.Equal(a2.Value, content), "MarshalFrom(Deterministic) = (url, deterministic bytes)")
+		chk(anypb.MarshalFrom(a2, orig, det) == nil && a2.TypeUrl == url && bytes.Equal(a2.Value, content), "MarshalFrom(Deterministic) = (url, deterministic bytes)")
 		a3 := &anypb.Any{TypeUrl: "stale/x.Y", Value: []byte("stale")}
 		if plainErr == nil {
 			chk(a3.MarshalFrom(m) == nil && a3.TypeUrl == url, "(*Any).MarshalFrom overwrites the URL")
